@@ -359,6 +359,9 @@ fn code(e: &v::Event) -> String {
     match e.kind {
         v::ev::CLOCK_START => "s".into(),
         v::ev::CLOCK_END => "e".into(),
+        // a = 3: a wait performed by the SampleBarrier guard while unwinding (hook H5)
+        v::ev::BARRIER_ARRIVE if e.a == 3 => "ga".into(),
+        v::ev::BARRIER_LEAVE if e.a == 3 => "gl".into(),
         v::ev::BARRIER_ARRIVE => format!("a{}", w(e.a)),
         v::ev::BARRIER_LEAVE => format!("l{}", w(e.a)),
         v::ev::TALLY_CLEAR => "C".into(),
